@@ -1,6 +1,6 @@
 /-
   Driver command for the generated stubs (C08), see harness/stub.go:
-    stub <idl> <scenario> x<method> <flags> <nin> <val>*nin <scenario data> | x<c2s> x<s2c> <ncalls> (x<method> x<args json> <more> <oneway> <upgrade>)* <nres> (vals x<json> <flags> | err x<type> x<msg> x<json>)*
+    stubs <idl> <k> (<scenario> x<method> <flags> <nin> <val>*nin <scenario data> | x<c2s> x<s2c> <ncalls> (x<method> x<args json> <more> <oneway> <upgrade>)* <nres> (vals x<json> <flags> | err x<type> x<msg> x<json>)*
     stubbuild <idl> | x<message>
 -/
 import Varlink.Stub
@@ -121,9 +121,16 @@ def hasObjectAlias (t : Idl) : Bool :=
   let al := aliasesOf t
   al.any fun (_, ty) => headIsObject al (al.length + 1) ty
 
-/-- `stub …` -/
-def cmdStub : P String := do
-  let t ← Gen.idlP
+/-- a `type` member whose body is an optional object (`type U ?object`): the Go declaration `type U *json.RawMessage`
+    is a defined pointer type without methods; encoding/json refuses to decode any JSON value but null into it -/
+def hasOptionalObjectAlias (t : Idl) : Bool :=
+  let al := aliasesOf t
+  al.any fun (_, ty) => match ty with
+    | .maybe e => headIsObject al (al.length + 1) e
+    | _ => false
+
+/-- one case of a `stubs` line -/
+def stubCase (t : Idl) : P String := do
   let scenario ← tok
   let methodName ← bytes
   let flagsN ← nat
@@ -153,7 +160,8 @@ def cmdStub : P String := do
   let fl := Flags.ofNat flagsN
   let depth := max (valsDepth args) ((replies.map fun r => valsDepth r.2).foldl max (valsDepth errVals))
   -- known deviation class: an alias of `object` is a Go type without RawMessage's methods (base64 on the wire)
-  let cls := if hasObjectAlias t then ":object-behind-alias" else ""
+  let cls := if hasOptionalObjectAlias t then ":optional-object-behind-alias"
+    else if hasObjectAlias t then ":object-behind-alias" else ""
   let feats := s!"nt={if depth ≥ 2 then 1 else 0} scenario={scenario} flags={flagsN} depth={depth} calls={calls.length} results={results.length} members={t.members.length} objalias={if hasObjectAlias t then 1 else 0}"
   let some m := findMethod t methodName | return s!"DIFF C08 harness-unknown-method {feats}"
   let raw := scenario == "unknown" || scenario == "badparams" || scenario == "rawcall"
@@ -227,8 +235,8 @@ def cmdStub : P String := do
       if f != (if cont then 4 else 0) then return s!"DIFF C08 returned-flags-differ{cls} {feats}"
     | .typedError e vs, .err ty _ json =>
       if ty != str "*" ++ Gen.pkgName t.name ++ str "." ++ e then return s!"DIFF C08 typed-error-other-type{cls} {feats}"
-      match parseDoc json, encodeFieldsF al bigFuel ((findError t e).getD .nil) vs with
-      | some j, some ms => if !JVal.beq j (.obj ms) then return s!"DIFF C08 typed-error-fields-differ{cls} {feats}"
+      match parseDoc json, encodeF al bigFuel (.struct ((findError t e).getD .nil)) (.struct vs) with
+      | some j, some (.obj ms) => if !JVal.beq j (.obj ms) then return s!"DIFF C08 typed-error-fields-differ{cls} {feats}"
       | _, _ => return s!"DIFF C08 typed-error-fields-differ{cls} {feats}"
     | .stdError e, .err ty _ json =>
       if ty != stdErrTypeName e then return s!"DIFF C08 std-error-other-type{cls} {feats}"
@@ -258,6 +266,29 @@ def cmdStub : P String := do
     | _ => return s!"DIFF C08 not-overridden-but-no-MethodNotImplemented{cls} {feats}"
   return s!"OK {feats}"
 
+/-- `stubs <idl> <k> <case>*k`: all cases of one description; the verdict is the first disagreement -/
+def cmdStubs : P String := do
+  let t ← Gen.idlP
+  let k ← nat
+  let mut feats : String := ""
+  let mut bad : Option String := none
+  let mut nt := 0
+  for _ in [0:k] do
+    let v ← stubCase t
+    let toks := v.splitOn " "
+    if toks.head? != some "OK" && bad.isNone then bad := some v
+    if toks.contains "nt=1" then nt := 1
+    for tk in toks do
+      if tk.startsWith "scenario=" || tk.startsWith "flags=" then feats := feats ++ " " ++ tk
+  match bad with
+  | some v => return v
+  | none => return s!"OK nt={nt} cases={k} members={t.members.length}{feats}"
+
+/-- `stubskip <why>`: the description is not inside the C07 domain or hits a C07 known finding (C07 decides that) -/
+def cmdStubSkip : P String := do
+  let why ← tok
+  return s!"OK nt=0 skipped={why}"
+
 /-- `stubbuild <idl> | x<msg>`: the emitted driver does not compile against the generated package -/
 def cmdStubBuild : P String := do
   let _t ← Gen.idlP
@@ -265,6 +296,6 @@ def cmdStubBuild : P String := do
   let msg ← bytes
   return s!"DIFF C08 driver-does-not-build:{(Gen.bstr msg).replace " " "_"} nt=0"
 
-def table : List (String × P String) := [("stub", cmdStub), ("stubbuild", cmdStubBuild)]
+def table : List (String × P String) := [("stubs", cmdStubs), ("stubskip", cmdStubSkip), ("stubbuild", cmdStubBuild)]
 
 end Driver.Stub
